@@ -134,7 +134,7 @@ class State(object):
         return p
 
 
-def judge(st, text, space, want_rule=None, path=PATH):
+def judge(st, text, space, path=PATH):
     """Run the tree's parser and the reference on one text and compare.  Returns the reference verdict."""
     S = _S
     ref = R.analyse(text)
@@ -315,10 +315,9 @@ def _dev1(st, name, idx):
     seen = set()
     for toks in G.deviations(base, G.FULL):
         t = head + " ".join(toks)
-        h = hash(t)
-        if h in seen:
+        if t in seen:
             continue
-        seen.add(h)
+        seen.add(t)
         judge(st, t, space)
 
 
@@ -331,10 +330,9 @@ def _dev2(st, name, idx, k, nk):
             continue
         for toks in G.deviations(first, G.CORE):
             t = " ".join(toks)
-            h = hash(t)
-            if h in seen:
+            if t in seen:
                 continue
-            seen.add(h)
+            seen.add(t)
             judge(st, t, space)
 
 
@@ -431,7 +429,8 @@ def _do(st, job, kind):
             raise RuntimeError("unknown job %r" % (job,))
 
 
-_GENS = {"structure": G.structure_texts, "use-graphs": G.use_graph_texts, "declarations": G.decl_texts}
+_GENS = {"structure": G.structure_texts, "use-graphs": G.use_graph_texts, "declarations": G.decl_texts,
+         "minimal": G.minimal_texts}
 
 
 class _Collector(object):
@@ -624,14 +623,15 @@ def _run(ctx):
         "comparison of the tokenizer output; (b) every attribute form (14 types x 12 arities x 11 defaults x 18 facet "
         "lists) in element / used group / variant-group / unused-group context, every element and group with <=2 members from the member pool "
         "x every header, all 512 use-graphs on 3 groups x shared/distinct names x element use, all <=3-declaration "
-        "sequences from a 13-declaration pool, each in pretty and one-token-per-line layout; (c) every substitution, "
+        "sequences from a 13-declaration pool, %d hand-minimised texts around min/max values and 'requires' in groups, each "
+        "in pretty and one-token-per-line layout; (c) every substitution, "
         "insertion and deletion of one token (52-token alphabet, line break and comment are tokens; the fixed supporting "
         "declarations are deviated once, not per text) on %d derivation texts, every pair of such deviations (28 tokens) on %d small texts; (d) the real mjcf.schema and every "
         "documented rule broken once at every%s applicable site of it (%d texts); (e) doubling families 1..4096 (use "
         "chains/rings 1..2048 under the default recursion limit) and use-diamonds of depth < %d.  A case is non-trivial "
         "when the reference reads at least 4 tokens before its verdict (not rejected inside the first declaration "
         "header); distinct = distinct text (64-bit digest), counted over all spaces together."
-        % (Lb, Ng, K, "".join(G.CHARS), len(corpus), len(small), "" if thorough else " 16th",
+        % (Lb, Ng, K, "".join(G.CHARS), len(G.MINIMAL), len(corpus), len(small), "" if thorough else " 16th",
            len(_REAL[1]) if _REAL else 0, ctx.q(11, 15)))
     ctx.extra["cpu_limit_per_text_s"] = CPU_LIMIT_S
     ctx.assumptions = ["reference reading of points the documentation leaves open: " + u for u in R.UNSPECIFIED] + [
